@@ -36,3 +36,22 @@ META["C08"] = {
             "evaluated and the work lists must be empty (hook). A panic or a violated invariant is a violation; held on the sequences explored.",
     "note": "Trusted: the invariant formulations in harness/src/sym.rs; explanations builds are monitored under C07, not here (the statement names the default and the checks build).",
 }
+
+META["C10"] = {
+    "technique": "exhaustive small-scope differential monitor against brute-force group closure (unions on leaves + group hook), random larger degrees",
+    "design_ref": "DESIGN.md §4 C10",
+    "text": "For every generator set of up to three permutations on up to four slots (exhaustive) and random sets on five and six slots, the symmetry "
+            "answers of the real e-graph (eq on permuted copies after asserting the generators as unions) and every observable of the group structure "
+            "(contains, all_perms, count, orbit, add_set's growth flag; through the add-only hook) are compared with brute-force closure; the "
+            "redundant-slot variant is judged by the ground congruence oracle. Exhaustive for degree <= 4, sampled beyond.",
+    "note": "Trusted: BFS closure on permutation tables; hook VGroup forwards to the private Group without logic; degrees 5-6 only sampled.",
+}
+
+META["C09"] = {
+    "technique": "differential/metamorphic monitor at the API boundary: lookup vs add vs class-allocation counter vs ground-closure oracle on reachable e-graphs",
+    "design_ref": "DESIGN.md §4 C09",
+    "text": "On e-graphs reached by generated histories, probe terms that are known by construction to be represented (literal, alpha-renamed, "
+            "slot-renamed, equal through earlier unions) and terms that may be absent are looked up and inserted; allocation is observed through the "
+            "progress measure, non-modification of lookup through a fingerprint, returned slots through the ground-closure oracle. Held on the probes explored.",
+    "note": "Trusted: the construction argument for 'represented' probes and the oracle for slot sets; absent probes are only checked for lookup/add agreement.",
+}
